@@ -50,6 +50,17 @@ class Walk:
                     q = t[3].split(":"); v["pts"].append(tuple(["x" + rtrim(unx(q[0])).hex()] + q[1:]))
                 elif t[2] == "ch":
                     k, i = int(t[3]), int(t[4]); c = v["subs"][k][i]; v["subs"][k][i] = (c[0], t[5])
+                elif t[2] == "ptname":
+                    i = int(t[3])
+                    if i < len(v["pts"]): p = v["pts"][i]; v["pts"][i] = tuple(["x" + rtrim(unx(t[4])).hex()] + list(p[1:]))
+                elif t[2] == "chn":
+                    k = int(t[3])
+                    if k < len(v["subs"]):
+                        for i, c in enumerate(v["subs"][k]):
+                            if c[0] == t[4]: v["subs"][k][i] = (c[0], t[5]); break
+                elif t[2] == "ptn":
+                    for i, p in enumerate(v["pts"]):
+                        if p[0] == t[3]: v["pts"][i] = (p[0], t[4]) + tuple(p[2:]); break
             d = run.parse_dump(rec["lines"]) if rec["lines"] else None
             yield rec, t, prev, d, vars_
             if d is not None: prev = d
@@ -390,10 +401,17 @@ def c09_standalone(res):
     for rec in res.hrecs:
         t = lines[rec["n"] - 1].split(" ")
         if rec["op"] != "sa": continue
-        if t[1] == "pnew": sp = parse(rec["lines"], "X")
+        if t[1] in ("pnew", "prename"): sp = parse(rec["lines"], "X")
         elif t[1] in ("gnew", "gparam"):
             g = parse(rec["lines"], "Y")
             if g: sg = g[0]
+        elif t[1] in ("pgroupidx", "pgroupn") and sp is not None:
+            idx = [i for i, g in enumerate(sp) if g["name"] == t[2]]
+            exp = ("T invalid_argument" if not idx else
+                   "V %d" % idx[0] if t[1] == "pgroupidx" else "V %s %d" % (sp[idx[0]]["name"], len(sp[idx[0]]["params"])))
+            out.append(("_c09_standalone_lookups_checked", {}, ""))
+            if rec["res"] != exp:
+                out.append(("group_lookup", {"op": rec["n"], "kind": t[1]}, "look-up `%s` on the stand-alone Parameters returned %r, the first group of that name says %r" % (" ".join(t[1:]), rec["res"], exp)))
         elif t[1] == "pgroup" and sp is not None and sg is not None:
             got = parse(rec["lines"], "X")
             idx = [i for i, g in enumerate(sp) if g["name"] == sg["name"]]
